@@ -428,3 +428,31 @@ def sections(modbytes):
         out[t] = modbytes[i + 5:i + 5 + ln]
         i += 5 + ln
     return out
+
+
+# --------------------------------------------------------------------------
+# nested wall-clock guard (the verdict it yields is "inconclusive"/skip, never a violation by itself)
+
+class TimeLimit(BaseException):
+    pass
+
+
+@contextlib.contextmanager
+def time_limit(seconds):
+    import signal
+    import time as _t
+
+    def h(signum, frame):
+        raise TimeLimit()
+    old_h = signal.getsignal(signal.SIGALRM)
+    old_left = signal.alarm(0)
+    t0 = _t.time()
+    signal.signal(signal.SIGALRM, h)
+    signal.alarm(int(seconds))
+    try:
+        yield
+    finally:
+        signal.alarm(0)
+        signal.signal(signal.SIGALRM, old_h)
+        if old_left:
+            signal.alarm(max(1, int(old_left - (_t.time() - t0))))
